@@ -3,8 +3,9 @@
 # Confirms a seeded change in its scratch worktree /tmp/wt/<ID>: suite passes with the change,
 # demo fails with it and passes without it.  Copies it to /verif/seeded/<ID><variant>/ with meta.json.
 set -u
-ID=$1; V=$2; WT=/tmp/wt/$ID; SRC=$WT/SEED/$V
-OUT=/verif/seeded/${ID}${V}
+ID=$1; V=$2; WT=${WTROOT:-/tmp/wt}/$ID; SRC=$WT/SEED/$V
+DV=${3:-$V}
+OUT=/verif/seeded/${ID}${DV}
 [ -f "$SRC/patch.diff" ] || { echo "no patch for $ID $V"; exit 2; }
 cd "$WT" || exit 2
 git checkout -q -- . ; rm -rf rtmp/tests amf0/tests
@@ -23,18 +24,18 @@ git checkout -q -- .
 echo "$ID$V: demo without change rc=$base_rc (want 0); demo with change rc=$mut_rc (want !=0); suite with change rc=$suite_rc (want 0) $suite_summary"
 if [ $base_rc -eq 0 ] && [ $mut_rc -ne 0 ] && [ $suite_rc -eq 0 ]; then
   mkdir -p "$OUT" && cp "$SRC/patch.diff" "$OUT/patch.diff" && cp "$SRC/demo.rs" "$OUT/demo.rs" && cp "$SRC/notes.md" "$OUT/notes.md" 2>/dev/null
-  python3 - "$ID" "$V" "$OUT" "$suite_summary" "$crate" "$pkg" <<'PY'
+  python3 - "$ID" "$DV" "$OUT" "$suite_summary" "$crate" "$pkg" <<'PY'
 import json,sys
 i,v,out,summary,crate,pkg=sys.argv[1:7]
 meta={"property":i,"variant":v,
  "needs_to_manifest":"see notes.md (written by the independent sub-agent that produced the change)",
- "confirmed_by":"tools/confirm_seed.sh in scratch worktree /tmp/wt/%s"%i,
+ "confirmed_by":"tools/confirm_seed.sh in a scratch worktree of /repo under /tmp (%s)"%i,
  "ran":["cargo test -p %s --test seed_demo --offline   (demo placed at %s/tests/seed_demo.rs): passes without the change, fails with it"%(pkg,crate),
         "cargo nextest run --workspace ... --offline with the change applied: "+summary.strip()],
  "detected_by":[]}
 json.dump(meta,open(out+"/meta.json","w"),indent=1)
 PY
-  echo "$ID$V CONFIRMED"
+  echo "$ID$DV CONFIRMED"
 else
-  echo "$ID$V NOT CONFIRMED"
+  echo "$ID$DV NOT CONFIRMED"
 fi
